@@ -320,7 +320,28 @@ def run(ctx):
     fidx = {l: i for i, l in enumerate(flags)}
     ctx.count("FEATSPAN", "tracked boolean flags", len(flags))
 
-    start = (0, 0, "Z", "S", tuple("?" for _ in flags))
+    # the reader's own "this field ended the record" flag: the counter must be back at 0 before
+    # the next field is read, whatever happens to the row (stored, skipped, reported)
+    re0 = set()
+    for b0, i0, s0 in fa.stmts():
+        rv0 = s0.get("rv") or {}
+        pl0 = op_place(rv0.get("op")) if rv0.get("k") == "use" else None
+        if pl0 is not None and any(isinstance(e, dict) and e.get("n") == "record_end" and
+                                   "ReadFieldResult" in str(e.get("o", "")) for e in pl0["p"]) and not s0["lhs"]["p"]:
+            re0.add(s0["lhs"]["l"])
+    RE = set(re0)
+    for l0, ds0 in fa.defs().items():
+        for d0 in ds0:
+            if d0[2] == "assign" and d0[3]["k"] == "use" and _local_of(fa, d0[3]["op"]) in re0:
+                RE.add(l0)
+    for l0, ds0 in fa.defs().items():
+        for d0 in ds0:
+            pl0 = op_place(d0[3]["op"]) if d0[2] == "assign" and d0[3]["k"] == "use" else None
+            if pl0 is not None and not pl0["p"] and pl0["l"] in re0:
+                RE.add(l0)
+    ctx.count("FEATSPAN", "record-end flags of the reader", len(RE))
+    unreset = {}
+    start = (0, 0, "Z", "S", tuple("?" for _ in flags), "-")
     seen = {start}
     pred = {}
     work = [start]
@@ -329,8 +350,12 @@ def run(ctx):
     notes = set()
     foreign = set()
     while work:
-        b, c, lv, bv, fl = entry = work.pop()
+        b, c, lv, bv, fl, en = entry = work.pop()
         fl = list(fl)
+        if b == rfb:
+            if en == "E" and c != 0:
+                unreset.setdefault(c, entry)
+            en = "-"
         nstates += 1
         if nstates > 200000:
             raise EngineError("FEATSPAN: state space too large")
@@ -351,6 +376,7 @@ def run(ctx):
                 k = op_const(rv["op"]) if rv["k"] == "use" else None
                 if k is not None and k.get("int") == 0:
                     c = 0
+                    en = "-"
                     lv = "G" if lv == "F" else lv       # a record ended
                     bv = "S"
                 else:
@@ -414,12 +440,16 @@ def run(ctx):
                     f_t, t_t = bool_switch_targets(t)
                     tg = [t_t if ev else f_t]
             succ = tg if tg is not None else fa.succs(b)
+            ended_edge = None
+            if _local_of(fa, t["op"]) in RE and fa.origin(t["op"])[0] != "rv":
+                ended_edge = bool_switch_targets(t)[1]
         else:
             succ = fa.succs(b)
+            ended_edge = None
         for x in succ:
             if fa.blocks[x].get("cleanup"):
                 continue
-            st = (x, c, lv, bv, tuple(fl))
+            st = (x, c, lv, bv, tuple(fl), "E" if x == ended_edge else en)
             if st not in seen:
                 seen.add(st)
                 pred[st] = entry
@@ -433,7 +463,7 @@ def run(ctx):
         out.reverse()
         # source lines with the abstract state, consecutive duplicates removed
         txt = []
-        for (b, c, lv, bv, _fl) in out:
+        for (b, c, lv, bv, _fl, _en) in out:
             ln = fa.loc(b).rsplit(":", 1)[-1]
             item = "L%s[c=%s,len=%s,base=%s]" % (ln, c, lv, bv)
             if not txt or txt[-1] != item:
@@ -465,6 +495,15 @@ def run(ctx):
            "there is a path on which `%s` was not rebased at the end of the current row's cost "
            "field: the feature starts in another row or column; path %s"
            % (names.get(B, "_%d" % B), path_to(arrivals[badB[0]]) if badB else ""))
+    if RE:
+        ctx.ob("FEATSPAN", "counter-reset-at-every-record-end", not unreset, loc,
+               "whenever the reader reports the end of a record, the field counter `%s` is 0 again "
+               "before the next field is read (also when the row is skipped or reported)"
+               % names.get(C, "_%d" % C) if not unreset else
+               "a record can end with the field counter `%s` left at %s when the next field is read "
+               "(e.g. on the path that skips an empty surface): the following rows are taken for "
+               "further columns of that row and are silently dropped; path %s"
+               % (names.get(C, "_%d" % C), sorted(unreset), path_to(unreset[sorted(unreset)[0]])))
     ctx.assume("FEATSPAN decides where the feature slice starts and which bytes its length counts; "
                "the off-by-one for the record terminator (len - 1, CRLF) is csv-core behaviour "
                "and is not decided")
